@@ -56,6 +56,7 @@ Proof.
     destruct (func_info P f) as [fi|]; [|discriminate].
     destruct (fi_native fi).
     + destruct (find_native (p_natives P) f) as [nt|]; [|discriminate].
+      destruct (n_func nt); cbn [negb] in H; [|discriminate].
       destruct (_ <? nargs); [discriminate | congruence].
     + destruct (_ <? nargs); [discriminate | congruence].
   - assert (s' = s); [|subst; apply ext_refl].
